@@ -1,0 +1,27 @@
+//go:build verif
+
+package packageimport
+
+import (
+	"context"
+
+	"github.com/google/go-containerregistry/pkg/crane"
+	"k8s.io/apimachinery/pkg/types"
+	"sigs.k8s.io/controller-runtime/pkg/client"
+
+	"package-operator.run/internal/packages/internal/packagetypes"
+)
+
+// SetPullImageForVerif replaces the function performing the registry pull.
+// Must be called before the first Pull.
+func (r *RequestManager) SetPullImageForVerif(
+	fn func(ctx context.Context, ref string) (*packagetypes.RawPackage, error),
+) {
+	r.pullImage = func(
+		ctx context.Context, _ client.Client,
+		_ types.NamespacedName,
+		ref string, _ ...crane.Option,
+	) (*packagetypes.RawPackage, error) {
+		return fn(ctx, ref)
+	}
+}
